@@ -114,6 +114,35 @@ pub fn bitmap(cex: &Value) -> Result<String, String> {
         }
       }
     }
+    // two bitmap services sharing a fragment under different DIDs: the status id names exactly one of them
+    {
+      use identity_credential::credential::{CredentialBuilder, RevocationBitmapStatus, Status, Subject};
+      use identity_credential::validator::{JwtCredentialValidatorUtils, StatusCheck};
+      let foreign = identity_did::DIDUrl::parse("did:example:zzzzzz#twin").unwrap();
+      let own = did.to_url().join("#twin").unwrap();
+      for (first, second) in [(&foreign, &own), (&own, &foreign)] {
+        let mut d = CoreDocument::builder(Object::new()).id(did.clone()).build().unwrap();
+        let mut with5 = RevocationBitmap::new();
+        with5.revoke(5);
+        d.insert_service((if first == &foreign { with5.clone() } else { RevocationBitmap::new() }).to_service(first.clone()).unwrap()).unwrap();
+        d.insert_service((if second == &foreign { with5.clone() } else { RevocationBitmap::new() }).to_service(second.clone()).unwrap()).unwrap();
+        for (target, revoked) in [(&own, false), (&foreign, true)] {
+          let status: Status = RevocationBitmapStatus::new(target.clone(), 5).into();
+          let cred: identity_credential::credential::Credential = CredentialBuilder::default()
+            .issuer(Url::parse(did.as_str()).unwrap())
+            .subject(Subject::with_id(Url::parse("did:example:subject").unwrap()))
+            .status(status)
+            .build()
+            .unwrap();
+          let d2 = d.clone();
+          match no_panic(move || JwtCredentialValidatorUtils::check_status(&cred, &[d2], StatusCheck::Strict).is_ok()) {
+            Err(msg) => log.push(format!("[document] check_status with twin services panicked: {msg}")),
+            Ok(ok) if ok == revoked => log.push(format!("[document] two services share a fragment: status {target} index 5 is {} although that service says revoked={revoked}", if ok { "valid" } else { "revoked" })),
+            Ok(_) => {}
+          }
+        }
+      }
+    }
     if doc.revoke_credentials(&did.to_url().join("#nope").unwrap(), &[1]).is_ok() {
       log.push("[document] revoke on a missing service succeeded".into());
     }
